@@ -1,7 +1,8 @@
 // argvchild: the child program of the C16 checks (no dependencies).
 // Appends one JSON line {"argv": os.Args} to the file named by VERIF_ARGV_OUT (one O_APPEND write),
 // then, if VERIF_ARGV_GATE names a file, waits until that file exists (at most 60 s),
-// then, if VERIF_ARGV_PRINT=1, prints its arguments joined by one space and a newline (nothing if one
+// then, if VERIF_ARGV_PRINT=1, prints its own location (os.Executable), ": ", and its arguments joined by
+// one space and a newline (nothing if one
 // of the arguments is --quiet), and exits with status N if its last argument of the form --exit=N says so
 // (scripted failing calls: the script is part of the argv, so it is a function of the argv).
 package main
@@ -54,7 +55,11 @@ func main() {
 		}
 	}
 	if os.Getenv("VERIF_ARGV_PRINT") == "1" && !quiet {
-		fmt.Println(strings.Join(os.Args[1:], " "))
+		exe, err := os.Executable()
+		if err != nil {
+			exe = "?"
+		}
+		fmt.Println(exe + ": " + strings.Join(os.Args[1:], " "))
 	}
 	os.Exit(code)
 }
